@@ -112,6 +112,9 @@ type locSys struct {
 	ro      map[string]bool
 	mu      sync.Mutex
 	newHook func(name string, st core.State) // optional (cron hooks etc.)
+	// refuseNext: the add hook installed by the case option "refuseHook" refuses every write of the current op
+	// (op option "refuse": the hook of a cron service that cannot take the rule)
+	refuseNext bool
 	// recording server for actions with an HTTP endpoint (started by the first rule that names postPlaceholder)
 	postSrv *httptest.Server
 	postMu  sync.Mutex
@@ -241,6 +244,16 @@ func newLocSys(c map[string]interface{}) (*locSys, error) {
 		s.fault.crashAt = int(f)
 	}
 	s.store = s.fault
+	if rh, _ := c["refuseHook"].(bool); rh {
+		s.newHook = func(name string, st core.State) {
+			st.AddHook(func(ctx *core.Context, state core.State, id string, fact core.Map, loading bool) error {
+				if s.refuseNext {
+					return fmt.Errorf("verif: the add hook refuses %s", id)
+				}
+				return nil
+			})
+		}
+	}
 	s.prov = core.NewSimpleLocationProvider(map[string]*core.Location{})
 	names := []string{}
 	if l, ok := c["locs"].([]interface{}); ok {
@@ -437,6 +450,10 @@ func (s *locSys) step(op map[string]interface{}) map[string]interface{} {
 	ctx.SetLoc(s.lastUsedElsewhere(name, loc))
 	id, _ := op["id"].(string)
 	kind, _ := op["op"].(string)
+	if rf, _ := op["refuse"].(bool); rf {
+		s.refuseNext = true
+		defer func() { s.refuseNext = false }()
+	}
 	switch kind {
 	case "addFact":
 		m, ok := asMap(op["fact"])
